@@ -28,12 +28,16 @@ def showDump (full : Bool) (s : State) : List String :=
 def parseIdList (s : String) : Option (List Nat) :=
   if s == "-" then some [] else (s.splitOn ",").mapM String.toNat?
 
-/-- Items of a page: `id` or `id!` (payload differs). -/
-def parseItems (s : String) : Option (List (Nat × Bool)) :=
+/-- Items of a page: `id@client` or `id!@client` (payload differs); client hex. -/
+def parseItems (s : String) : Option (List Item) :=
   if s == "-" then some [] else
   (s.splitOn ",").mapM fun it =>
-    if it.endsWith "!" then (it.dropEnd 1).toString.toNat?.map (·, false)
-    else it.toNat?.map (·, true)
+    match it.splitOn "@" with
+    | [idp, cl] => do
+      let client ← hexDecode cl
+      if idp.endsWith "!" then (idp.dropEnd 1).toString.toNat?.map (⟨·, false, client⟩)
+      else idp.toNat?.map (⟨·, true, client⟩)
+    | _ => none
 
 def parseCount (s : String) : Option Nat :=
   if s.startsWith "#" then (s.drop 1).toString.toNat? else none
@@ -108,11 +112,12 @@ def showOldest : Option Int → String
   | none => "-"
   | some t => toString t
 
-def showResp : Except Fault Resp → List String
+def showResp (c : Conf) : Except Fault Resp → List String
   | .error _ => ["PANIC"]
   | .ok .bad => ["400", "-", "-"]
   | .ok (.ok es o) =>
-    ["200", (if es.isEmpty then "-" else joinWith "," (es.map fun e => toString e.id)), showOldest o]
+    ["200", (if es.isEmpty then "-" else
+      joinWith "," (es.map fun e => toString e.id ++ "@" ++ hexEncode (shownClient c e))), showOldest o]
 
 def parseAnswer (impl : List String) : Option Answer :=
   match impl with
@@ -139,7 +144,7 @@ def stepSearch (d : DSt) (ins impl : List String) : Option String := do
       statusRaw := ← hexDecode status }
     let scanDefault : Int := if scan = 0 then 50000 else scan
     let m := handle scanDefault d.s req
-    let modelObs := showResp m
+    let modelObs := showResp d.s.conf m
     let agree := (match impl with
       | "PANIC" :: _ => modelObs == ["PANIC"]
       | _ => modelObs == impl)
@@ -155,11 +160,12 @@ def stepSearch (d : DSt) (ins impl : List String) : Option String := do
 
 def stepOp (d : DSt) (op : String) (ins impl : List String) : Option (DSt × String) := do
   match op, ins with
-  | "C07.add", [id, dt, qname, cid, ip, reason, isF, _variant] =>
+  | "C07.add", [id, dt, qname, cid, ip, ipAnon, reason, isF, _variant] =>
     let dt ← dt.toNat?
     let clock := d.clock + dt
     let e : Entry := {
       ts := clock, host := normalizeDomain (← hexDecode qname), cid := ← hexDecode cid, ip := ← hexDecode ip
+      ipAnon := ← hexDecode ipAnon
       reason := ← reason.toNat?, isFiltered := ← parseBool isF, id := ← id.toNat? }
     let s' := step d.s (.add e)
     let g' := gStep d.g (.add e)
@@ -186,12 +192,13 @@ def stepOp (d : DSt) (op : String) (ins impl : List String) : Option (DSt × Str
   | "C07.restart", [m, f, en] =>
     let op : Op := .restart (← m.toNat?) (← parseBool f) (← parseBool en)
     pure (answerOp "restart" d (step d.s op) (gStep d.g op) d.clock [] impl)
-  | "C07.putconf", en :: ivl :: rest =>
+  | "C07.putconf", en :: an :: ivl :: rest =>
     let en ← parseBool en
+    let an ← parseBool an
     let ivl ← ivl.toInt?
     let (hosts, rest) ← takeIgnored rest
     if !rest.isEmpty then none else
-    let op : Op := .putConf en ivl hosts
+    let op : Op := .putConf en an ivl hosts
     let code := if ivl < minIvlMs ∨ ivl > maxIvlMs then "422" else "200"
     pure (answerOp ("putconf." ++ code) d (step d.s op) (gStep d.g op) d.clock [code] impl)
   | "C07.clients", n :: rest =>
@@ -214,7 +221,7 @@ def stepReset (ins impl : List String) : Option (DSt × String) := do
       let n ← n.toNat?
       let (tbl, rest) ← takeClients n rest
       if !rest.isEmpty then none else
-      let c : Conf := { enabled := ← parseBool en, fileEnabled := ← parseBool f, memSize := ← m.toNat?
+      let c : Conf := { enabled := ← parseBool en, fileEnabled := ← parseBool f, memSize := ← m.toNat?, anonymize := false
                         ivl := (← ivl.toInt?) * msNs, ignored := hosts, clients := tbl }
       let d : DSt := { s := init c, g := gInit c, clock := 0, full := full }
       pure (answerOp "reset" d d.s d.g 0 [] impl)
